@@ -51,6 +51,14 @@ func replayFsck(c *core.Ctx, lfsBin string, b *behaviour, idx int) (*core.Violat
 		if s.str("a") != "fsck" {
 			return nil, fmt.Errorf("unknown step %v", s)
 		}
+		if ex := toStrings(s["excl"]); len(ex) > 0 {
+			var pats []string
+			for _, p := range ex {
+				pats = append(pats, PathFile(p))
+			}
+			w.logf("git config lfs.fetchexclude %s", strings.Join(pats, ","))
+			w.Env.Git(w.Clone, "config", "lfs.fetchexclude", strings.Join(pats, ","))
+		}
 		// make sure no later git command re-cleans work-tree files (racy git): refresh the index
 		w.Env.Git(w.Clone, "update-index", "-q", "--refresh")
 		before := gitenv.ListObjects(w.GitDir())
@@ -86,14 +94,24 @@ func replayFsck(c *core.Ctx, lfsBin string, b *behaviour, idx int) (*core.Violat
 			reported[w.Abstract(m[2])] = m[1]
 		}
 		wantMissing, wantCorrupt := toSet(toStrings(s["missing"])), toSet(toStrings(s["corrupt"]))
+		sharedTree := toSet(toStrings(s["sharedTree"]))
+		unreported := func(o, kind string) *core.Violation {
+			v := mk("reports-every-damaged-object", kind+" object "+o+" was not reported")
+			v.Fields["cause"] = "unclassified"
+			if sharedTree[o] {
+				// the same pointer blob sits at an excluded and at a checked path of HEAD's tree
+				v.Fields["cause"] = "same-pointer-blob-at-an-excluded-path-of-the-tree"
+			}
+			return v
+		}
 		for o := range wantMissing {
 			if reported[o] == "" {
-				return mk("reports-every-damaged-object", "missing object "+o+" was not reported"), nil
+				return unreported(o, "missing"), nil
 			}
 		}
 		for o := range wantCorrupt {
 			if reported[o] == "" {
-				return mk("reports-every-damaged-object", "corrupt object "+o+" was not reported"), nil
+				return unreported(o, "corrupt"), nil
 			}
 		}
 		mayReport, mayMove := toSet(toStrings(s["mayReport"])), toSet(toStrings(s["mayMove"]))
@@ -105,7 +123,8 @@ func replayFsck(c *core.Ctx, lfsBin string, b *behaviour, idx int) (*core.Violat
 		// reported pointers
 		nptr := len(reFsckPtr.FindAllStringSubmatch(out, -1))
 		wantPtr := toStrings(s["badPointers"])
-		if nptr != len(wantPtr) {
+		mayPtr := toStrings(s["mayBadPointers"])
+		if nptr < len(wantPtr) || nptr > len(wantPtr)+len(mayPtr) {
 			// count paths: a path is reported once per tree entry
 			return mk("reports-exactly-the-bad-pointers", fmt.Sprintf("%d pointer problems reported, the specification lists %v", nptr, wantPtr)), nil
 		}
@@ -115,6 +134,9 @@ func replayFsck(c *core.Ctx, lfsBin string, b *behaviour, idx int) (*core.Violat
 			if mayReport[o] {
 				reportedMay = true // damage the range may or may not cover was reported: the exit status follows it
 			}
+		}
+		if nptr > len(wantPtr) {
+			reportedMay = true
 		}
 		if ok != (r.Code == 0) && !(ok && reportedMay) {
 			return mk("exit-status-iff-clean", fmt.Sprintf("specification says ok=%v, exit code %d", ok, r.Code)), nil
@@ -179,11 +201,11 @@ func init() {
 		c.Set("traces_validated_against_impl", len(bs))
 		c.Set("evaluations", len(bs))
 		c.Set("distinct_nontrivial", len(bs))
-		c.Set("rule", "behaviours = per-edge output of spec/Fsck.tla for every edge ending in an fsck; one per class (flag x scope {HEAD + index, HEAD^..HEAD, HEAD~2..HEAD} x numbers of missing / corrupt / bad-pointer findings x damage kinds used x features incl. a staged new version)")
+		c.Set("rule", "behaviours = per-edge output of spec/Fsck.tla for every edge ending in an fsck; one per class (flag x scope {HEAD + index, HEAD^..HEAD, HEAD~2..HEAD} x numbers of missing / corrupt / bad-pointer findings x damage kinds used x features incl. a staged new version, lfs.fetchexclude naming a path)")
 		for i := 0; i < len(bs); i += len(bs)/4 + 1 {
 			c.Sample(json.RawMessage(bs[i].raw))
 		}
-		c.Assume("tracking through a committed .gitattributes; work tree holds pointer files and the index is refreshed before fsck so that Git does not re-run the clean filter; revision arguments: none and HEAD^..HEAD (objects only); fetchexclude not yet modelled")
+		c.Assume("tracking through a committed .gitattributes; work tree holds pointer files and the index is refreshed before fsck so that Git does not re-run the clean filter; revision arguments: none and HEAD^..HEAD (objects only); lfs.fetchexclude names nothing or the first path")
 	}
 }
 
@@ -218,12 +240,21 @@ func sampleFsck(c *core.Ctx, file string, budget int) ([]*behaviour, int, int) {
 				}
 			}
 		}
+		last := st[len(st)-1]
+		if len(toStrings(last["excl"])) > 0 {
+			feat["excl"] = true
+			badSet := toSet(toStrings(last["badObjects"]))
+			for _, o := range toStrings(last["shared"]) {
+				if badSet[o] {
+					feat["excl-shared-bad"] = true // a damaged object of a checked file that also belongs to an excluded file
+				}
+			}
+		}
 		fs := []string{}
 		for k := range feat {
 			fs = append(fs, k)
 		}
 		sort.Strings(fs)
-		last := st[len(st)-1]
 		k := fmt.Sprintf("%s|%s|m%d|c%d|p%d|%s", last.str("flag"), last.str("scope"), len(toStrings(last["missing"])), len(toStrings(last["corrupt"])),
 			len(toStrings(last["badPointers"])), strings.Join(fs, ","))
 		b := &behaviour{steps: st, raw: raw, class: k, hash: fnvStr(string(raw), c.Seed)}
